@@ -395,3 +395,29 @@ def op_hint_probe(req, trace):
         trace.emit({'t': 'tb', 'tb': traceback.format_exc()})
     trace.emit({'t': 'probe', 'name': 'hint', 'p': p})
     _exit_event(trace, status, exc)
+
+
+@register('legacy_sig')
+def op_legacy_sig(req, trace):
+    """Rewrite the current stored signature as a version-1 pickle, the way a
+    database last touched by Django Evolution 1.x has it (C06)."""
+    configure(req)
+    from django.db import connections
+    from django_evolution.compat.py23 import pickle_dumps
+    from django_evolution.models import Version
+    db = (req.get('args') or {}).get('database', 'default')
+    status, exc = 'ok', None
+    extra = {}
+    try:
+        v = Version.objects.current_version(using=db)
+        data = v.signature.serialize(sig_version=1)
+        text = pickle_dumps(data)
+        with connections[db].cursor() as cur:
+            cur.execute('UPDATE django_project_version SET signature = %s '
+                        'WHERE id = %s', [text, v.pk])
+        extra['version_id'] = v.pk
+        extra['v1_apps'] = sorted(k for k in data if k != '__version__')
+    except Exception as e:
+        status, exc = 'exception', e
+        trace.emit({'t': 'tb', 'tb': traceback.format_exc()})
+    _exit_event(trace, status, exc, extra=extra)
